@@ -15,7 +15,7 @@ use std::sync::atomic::Ordering;
 use vcore::Report;
 
 fn report(r: &Report, e: &Entry, t: &Type, v: &Value, f: Failure) {
-    r.violation(&format!("{}:{}", f.check, e.name), &f.what, json!({"leg": "static", "carrier": e.name, "type": t.to_string(), "value": values::value_to_json(v)}));
+    r.violation(&format!("{}:{}", f.check, e.name), &f.what, json!({"leg": "static", "carrier": e.name, "type": t.to_string(), "value": values::value_to_json(v), "frozen": crate::dynconv::frozen_mode()}));
 }
 
 pub fn all_entries() -> Vec<Entry> {
@@ -56,16 +56,18 @@ pub fn run(r: &Report) {
             if acc == values::Accept::May {
                 continue; // acceptance undetermined (empty into counter/duration/composites): judged in the dyn leg only
             }
-            r.eval(1);
-            match (e.c01)(&t, &v, st_ref) {
-                Ok(true) => {
-                    per_ref[i].fetch_add(1, Ordering::Relaxed);
-                    if !matches!(v, Value::Null | Value::Unset) {
-                        r.nontrivial(1);
+            for mode in crate::dynconv::frozen_modes_for(&t) {
+                r.eval(1);
+                crate::dynconv::with_frozen(mode, || match (e.c01)(&t, &v, st_ref) {
+                    Ok(true) => {
+                        per_ref[i].fetch_add(1, Ordering::Relaxed);
+                        if mode == 0 && !matches!(v, Value::Null | Value::Unset) {
+                            r.nontrivial(1);
+                        }
                     }
-                }
-                Ok(false) => {}
-                Err(f) => report(r, e, &t, &v, f),
+                    Ok(false) => {}
+                    Err(f) => report(r, e, &t, &v, f),
+                });
             }
         }
     });
@@ -78,7 +80,7 @@ pub fn run(r: &Report) {
     r.counters.add("cases_deserialized_back_to_same_carrier", st.deser_roundtrips.load(Ordering::Relaxed));
     r.counters.add("short_tuple_encodings_decoded_into_padded_carrier", st.padded_decodes.load(Ordering::Relaxed));
     r.note("min_cases_per_carrier", json!(per_carrier.iter().map(|n| n.load(Ordering::Relaxed)).min().unwrap_or(0)));
-    r.set_rule("E-ENUM, static carriers. Table: 31 owned base carriers (i8..i64, f32/f64, bool, String/Box<str>/Arc<str>, Vec<u8>/Bytes, IpAddr, Uuid, CqlTimeuuid, Counter, CqlDate/Time/Timestamp/Duration, CqlVarint, CqlDecimal, chrono NaiveDate/NaiveTime/DateTime<Utc>, time Date/Time/OffsetDateTime, num-bigint 0.3/0.4 BigInt, bigdecimal BigDecimal) each as T, Option<T>, Box<T>, Arc<T>, Vec<T>, Vec<Option<T>>, Option<Vec<T>>, BTreeMap<i32,T>, HashMap<String,T>, (T,), (T,i32), (String,T,Option<i64>), MaybeUnset<T>, &T, [T]; BTreeSet/BTreeMap-key for Ord carriers, HashSet/HashMap-key for Hash carriers, MaybeEmpty<T> for Emptiable carriers, two-level wrappers for five representatives, secrecy 0.8/0.10 wrappers, and the borrowed carriers &str, &[u8], Cow<str>, Cow<[u8]>, CqlVarintBorrowed, CqlDecimalBorrowed, [u8;N]. For each carrier: every column type it is documented to fit (list/set/vector dim 0..3 for sequences) x every alphabet value the carrier can represent. distinct_nontrivial = compared cases with a non-null value.");
+    r.set_rule("E-ENUM, static carriers. Table: 31 owned base carriers (i8..i64, f32/f64, bool, String/Box<str>/Arc<str>, Vec<u8>/Bytes, IpAddr, Uuid, CqlTimeuuid, Counter, CqlDate/Time/Timestamp/Duration, CqlVarint, CqlDecimal, chrono NaiveDate/NaiveTime/DateTime<Utc>, time Date/Time/OffsetDateTime, num-bigint 0.3/0.4 BigInt, bigdecimal BigDecimal) each as T, Option<T>, Box<T>, Arc<T>, Vec<T>, Vec<Option<T>>, Option<Vec<T>>, BTreeMap<i32,T>, HashMap<String,T>, (T,), (T,i32), (String,T,Option<i64>), MaybeUnset<T>, &T, [T]; BTreeSet/BTreeMap-key for Ord carriers, HashSet/HashMap-key for Hash carriers, MaybeEmpty<T> for Emptiable carriers, two-level wrappers for five representatives, secrecy 0.8/0.10 wrappers, and the borrowed carriers &str, &[u8], Cow<str>, Cow<[u8]>, CqlVarintBorrowed, CqlDecimalBorrowed, [u8;N]. For each carrier: every column type it is documented to fit (list/set/vector dim 0..3 for sequences) x every alphabet value the carrier can represent. Every (carrier, column type, value) is run with the column type's collections non-frozen, all frozen and nested-only frozen. distinct_nontrivial = compared cases (non-frozen variant) with a non-null value.");
     r.set_exhaustive(true);
     r.assume("a carrier's logical value is read through harness conversions that never call the crate's conversion impls (chrono/time/bigint built from raw numbers); values a carrier cannot represent (e.g. dates outside chrono's range, Empty for i32) are skipped and counted");
     r.sample(json!({"carrier": "HashMap<String,Vec<Option<i32>>>-style nesting is covered by", "entries": entries.iter().filter(|e| e.name.contains("Vec<Option<i32>>") || e.name.contains("HashMap<i32,Vec<i32>>")).map(|e| e.name.clone()).collect::<Vec<_>>()}));
@@ -93,7 +95,8 @@ pub fn replay(r: &Report, case: &serde_json::Value) {
     println!("replaying static case: carrier {name}, type {t}, value {}", values::brief(&v));
     r.eval(1);
     let st = SStats::default();
-    match (e.c01)(&t, &v, &st) {
+    let mode = case["frozen"].as_u64().unwrap_or(0) as u8;
+    match crate::dynconv::with_frozen(mode, || (e.c01)(&t, &v, &st)) {
         Ok(done) => println!("case {}", if done { "held" } else { "not representable by the carrier" }),
         Err(f) => report(r, e, &t, &v, f),
     }
